@@ -1,13 +1,28 @@
 package c09
 
+import "strings"
+
 // Calls that are known to kill or hang the process on the pinned tree; they are
 // run in a child process so that each gets a specific signature (see isolate()).
 // Filled from observation; the table never decides a verdict.
 
 func init() {
+	anyOf := func(names ...string) func([]string, func(...string) bool) bool {
+		return func(args []string, has func(...string) bool) bool { return has(names...) }
+	}
+	// (unuse-package <package>) rebuilds cl-user's tables from an incomplete use list: every later error is a nil dereference
+	isolateRules["common-lisp:unuse-package"] = anyOf("pkg")
+	// reading a line from a closed stream never returns
+	isolateRules["common-lisp:read-line"] = anyOf("scl")
+	isolateRules["net:wait-for-input"] = anyOf("el")
 }
 
-// isolateDirective: format directives known to die/hang with a huge parameter.
+// isolateDirective: format directives known to run without bound with a huge
+// column/count parameter.
 func isolateDirective(d string) bool {
-	return false
+	c := d[len(d)-1]
+	if 'a' <= c && c <= 'z' {
+		c -= 'a' - 'A'
+	}
+	return strings.IndexByte("ASDBOX$&%~|T", c) >= 0
 }
